@@ -666,6 +666,94 @@ func runK7scen(r *rng, n int) {
 			s.conns[1].c.Close()
 			emit("k7scen name=rename-samedir-while-last-ref-dropped => renamed=%d alive=%d", done, alive)
 		}
+		// a directory is renamed while the last reference to a file below it is being dropped
+		// (its Close is held inside the backend): the closing File must not be notified
+		{
+			s := newK7(r, 2)
+			s.walk(0, 0, 1, p9.ModeDirectory|0755, "d")
+			s.walk(0, 1, 2, p9.ModeRegular|0644, "f")
+			g := s.g.arm("Close", 0)
+			s.send(0, 120, map[string]interface{}{"fid": uint64(2)})
+			entered := g.waitEntered(2 * time.Second)
+			rt := s.call(1, 74, map[string]interface{}{"OldDirectory": uint64(0), "OldName": "d", "NewDirectory": uint64(0), "NewName": "e"})
+			close(g.release)
+			s.recvReply(0, 3*time.Second)
+			s.be.mu.Lock()
+			uac := len(s.be.uac)
+			s.be.mu.Unlock()
+			ren := 0
+			if rt == 75 || !entered {
+				ren = 1
+			}
+			s.close()
+			emit("k7scen name=rename-dir-while-child-closing => renamed=%d uac=%d", ren, uac)
+		}
+		// a clunk racing with an in-flight operation on the same fid: the File is closed only when
+		// the operation has returned, once, and not used afterwards
+		{
+			s := newK7(r, 1)
+			h := s.walk(0, 0, 1, p9.ModeRegular|0644, "f")
+			s.call(0, 12, map[string]interface{}{"fid": uint64(1), "Flags": uint64(0)})
+			g := s.g.arm("ReadAt", 0)
+			s.send(0, 116, map[string]interface{}{"fid": uint64(1), "Count": uint64(8)})
+			g.waitEntered(2 * time.Second)
+			clunked := 0
+			tc := s.send(0, 120, map[string]interface{}{"fid": uint64(1)})
+			if tag, rt, _, ok := s.recvReply(0, 3*time.Second); ok && tag == tc && rt == 121 {
+				clunked = 1
+			}
+			time.Sleep(20 * time.Millisecond)
+			s.be.mu.Lock()
+			early := s.be.closed[h]
+			s.be.mu.Unlock()
+			close(g.release)
+			s.recvReply(0, 3*time.Second)
+			after := 0
+			for k := 0; k < 200; k++ {
+				s.be.mu.Lock()
+				after = s.be.closed[h]
+				s.be.mu.Unlock()
+				if after > 0 {
+					break
+				}
+				time.Sleep(10 * time.Millisecond)
+			}
+			time.Sleep(10 * time.Millisecond)
+			s.be.mu.Lock()
+			after = s.be.closed[h]
+			uac := len(s.be.uac)
+			s.be.mu.Unlock()
+			s.close()
+			emit("k7scen name=clunk-races-inflight-read => clunked=%d closed_early=%d closed_after=%d uac=%d", clunked, early, after, uac)
+		}
+		// the connection is cut while a request is inside the backend: Handle returns only after
+		// the handler has finished, and every File is closed exactly once
+		{
+			s := newK7(r, 1)
+			h := s.walk(0, 0, 1, p9.ModeRegular|0644, "f")
+			s.call(0, 12, map[string]interface{}{"fid": uint64(1), "Flags": uint64(0)})
+			g := s.g.arm("ReadAt", 0)
+			s.send(0, 116, map[string]interface{}{"fid": uint64(1), "Count": uint64(8)})
+			g.waitEntered(2 * time.Second)
+			s.conns[0].c.Close()
+			retEarly := 0
+			select {
+			case <-s.conns[0].done:
+				retEarly = 1
+			case <-time.After(80 * time.Millisecond):
+			}
+			s.be.mu.Lock()
+			early := s.be.closed[h]
+			s.be.mu.Unlock()
+			close(g.release)
+			ret := 0
+			select {
+			case <-s.conns[0].done:
+				ret = 1
+			case <-time.After(5 * time.Second):
+			}
+			emit("k7scen name=cut-with-request-in-backend => returned_early=%d closed_early=%d returned=%d %s", retEarly, early, ret, s.be.lifecycle())
+		}
 	}
 	_ = strings.Join
 }
